@@ -28,10 +28,11 @@ TECHNIQUE = "runtime monitoring: taps on the six from_value/from_str parsers + e
 RULE = (
     "exhaustive over all members of the six enums (value, documented upper/lower-case variants) plus 300 (quick) / 2000 "
     "(thorough) non-member strings per parser (near-misses of member values and names, empty, unicode); call sites executed "
-    "with the string and the enum spelling; non-trivial = member string or alias; distinct = (parser, input class, member)"
+    "with the string and the enum spelling; lists / dictionaries of 0..5 task names (any order, repeats, an occasional "
+    "non-member) through set_task_lists / set_task_dict; non-trivial = member string or alias; distinct = (parser, input class, member)"
 )
 ASSUMPTIONS = ["inputs are str", "a raised exception of any type is a rejection"]
-DECIDING = ["parser.member_checked", "parser.nonmember_checked", "C20.shape_sites", "C20.transform_key_sites", "C20.other_sites"]
+DECIDING = ["parser.member_checked", "parser.nonmember_checked", "C20.shape_sites", "C20.transform_key_sites", "C20.other_sites", "C20.task_helper_sites"]
 JOBS = {"quick": 1, "thorough": 4}
 
 VIS_ALIAS = {"v0-40": Visibility.NONE, "v40-60": Visibility.PARTIAL, "v60-80": Visibility.MOST, "v80-100": Visibility.FULL}
@@ -206,6 +207,57 @@ def run(ctx: Ctx) -> None:
                 r2 = type(e).__name__
             ctx.check(r1 is r2 or r1 == r2, "C20/string_and_enum_spelling_behave_differently", dict(site="FrameID.from_task", task=t.value, enum=repr(r1), string=repr(r2)), "sites")
             ctx.case(("site", "task", t.name), nontrivial=True)
+        # ------------------------------------------------------------ task-name helpers (lists and dictionaries of task names)
+        from perception_eval.common import evaluation_task as et
+
+        by_value = {m.value: m for m in EvaluationTask}
+        for m in EvaluationTask:
+            ctx.begin_case("task_helpers", 0, fn="set_task", input=m.value)
+            ctx.count("C20.task_helper_sites")
+            got = None
+            try:
+                got = et.set_task(m.value)
+            except Exception as e:  # noqa: BLE001
+                got = f"{type(e).__name__}"
+            ctx.check(got is m, "C20/member_string_not_parsed_to_member", dict(site="set_task", input=m.value, got=repr(got)), "sites")
+        for i in ctx.indices("task_lists", 400 if ctx.quick else 20000):
+            r = ctx.rng("task_lists", i)
+            k = r.randint(0, 5)
+            names = [r.choice(list(by_value)) for _ in range(k)]
+            if r.random() < 0.3 and names:
+                names[r.randrange(len(names))] = r.choice(["", "Detection", "tracking ", "sensing3d", "DETECTION"])
+            if r.random() < 0.3:
+                r.shuffle(names)
+            ctx.begin_case("task_lists", i, names=names)
+            ctx.count("C20.task_helper_sites")
+            want = [by_value[n] for n in names if n in by_value]
+            try:
+                got_l = et.set_task_lists(list(names))
+            except Exception:  # noqa: BLE001
+                got_l = None
+            if got_l is not None or all(n in by_value for n in names):
+                ctx.check(
+                    got_l is not None and len(got_l) == len(want) and all(a is b for a, b in zip(got_l, want)),
+                    "C20/task_name_list_not_parsed_member_by_member",
+                    dict(names=names, got=repr(got_l), expected=repr(want)),
+                    "sites",
+                )
+            items = {n: {"id": j} for j, n in enumerate(names)}
+            try:
+                got_d = et.set_task_dict(dict(items))
+            except Exception:  # noqa: BLE001
+                got_d = None
+            if got_d is not None or all(n in by_value for n in names):
+                want_pairs = [(by_value[n], v) for n, v in items.items() if n in by_value]  # the oracle never hashes a member
+                got_pairs = list(got_d.items()) if got_d is not None else None
+                ctx.check(
+                    got_pairs is not None and len(got_pairs) == len(want_pairs) and all(a[0] is b[0] and a[1] is b[1] for a, b in zip(got_pairs, want_pairs)),
+                    "C20/task_name_dict_not_parsed_member_by_member",
+                    dict(names=names, got=repr(got_d)[:200]),
+                    "sites",
+                )
+            ordered = names == sorted(names, key=lambda n: list(by_value).index(n) if n in by_value else -1)
+            ctx.case(("task_list", min(len(names), 3), "declaration_order" if ordered else "other_order", len(set(names)) < len(names)), nontrivial=len(names) > 1)
         # evaluation configuration: frame id given as str (lower / upper)
         from perception_eval.config import PerceptionEvaluationConfig
 
